@@ -429,8 +429,9 @@ func (tk *tokenizer) consumeUrl(pos Pos) (Token, Token) {
 				startPos = tk.pos
 			default:
 				tk.pos += w
+				// a backslash reaching this case does not start a valid escape
 				// http://drafts.csswg.org/csswg/css-syntax/#non-printable-character
-				if strings.ContainsRune(nonPrintable, c) {
+				if c == '\\' || strings.ContainsRune(nonPrintable, c) {
 					goto badURL
 				}
 			}
